@@ -1,6 +1,7 @@
 //! C17: fallback.
 //! script = [strategy, pred_mode, value, req, inner_kind, inner_val, backup_kind, backup_val] ++ (op, a, b)*
 //!   strategy 0..5 = value, value_fn, from_error, from_request_error, service, exception
+//!     (the value_fn generator returns a DIFFERENT value at every invocation: value + 1 + 100 * the call being polled)
 //!   pred_mode: bits 0-1 predicate (0 none, 1 even errors, 2 all, 3 none accepted); bit 2: handle() BEFORE the
 //!     strategy setter; bits 3..: builder route: +8 name() first, +16 on_event() between the two setters,
 //!     +32 name() and on_event() last, +64 a decoy strategy setter before the real one, +128 the convenience
@@ -102,7 +103,7 @@ fn build(s: &[i128], sh: &Arc<Shared>) -> FallbackLayer<i128, i128, i128> {
         let sh = sh.clone();
         return match st {
             0 => FallbackLayer::value(v),
-            1 => FallbackLayer::value_fn(move || { sh.ev(2, 0, 0); v + 1 }),
+            1 => FallbackLayer::value_fn(move || { sh.ev(2, 0, 0); v + 1 + 100 * *sh.cur.lock().unwrap() }),
             2 => FallbackLayer::from_error(move |e: &i128| { sh.ev(3, *e, 0); fe(*e) }),
             3 => FallbackLayer::from_request_error(move |r: &i128, e: &i128| { sh.ev(4, *r, *e); fre(*r, *e) }),
             4 => FallbackLayer::service(move |r: i128| {
@@ -141,7 +142,7 @@ fn build(s: &[i128], sh: &Arc<Shared>) -> FallbackLayer<i128, i128, i128> {
         let b = if route & 8 != 0 { if st == 0 { b.value_fn(|| -777) } else { b.value(-777) } } else { b };
         match st {
             0 => b.value(v),
-            1 => b.value_fn(move || { sh.ev(2, 0, 0); v + 1 }),
+            1 => b.value_fn(move || { sh.ev(2, 0, 0); v + 1 + 100 * *sh.cur.lock().unwrap() }),
             2 => b.from_error(move |e: &i128| { sh.ev(3, *e, 0); fe(*e) }),
             3 => b.from_request_error(move |r: &i128, e: &i128| { sh.ev(4, *r, *e); fre(*r, *e) }),
             4 => b.service(move |r: i128| {
